@@ -165,6 +165,8 @@ class XferLog:
                 raise
             if code == "0404":
                 p = pkt.payload
+                if pkt.dst.id not in (gwrig.GWY_ID, gwrig.HGI_ID):
+                    log.rows.append(("foreign_reply_taken", code, idx, str(pkt)[:60]))
                 num, total = int(p[10:12], 16), int(p[12:14], 16)
                 frag = p[14:]
                 ver = next((c for _, c, _s in reversed(ctl.history.get(idx, [])) if False), None)
@@ -232,6 +234,23 @@ async def episode(loop, script, rnd) -> dict:
 
     for dly, fr in script["overheard"]:
         loop.call_later(dly, rig.transport.inject, fr)
+    for t, z in script.get("bump_at", []):
+        loop.call_later(t, ctl.put, z, script["sizes"][z])
+
+    def replay_old(z, num, dst):
+        """a delayed / duplicated copy of a fragment of the zone's *previous* schedule (a repeater, a reply to another gateway)"""
+        hist = ctl.history[z]
+        if len(hist) < 2:
+            return
+        frs = ctl.s2f({"zone_idx": z, "schedule": hist[-2][2]})
+        if num > len(frs):
+            return
+        frag = frs[num - 1]
+        p = f"{z}200008{len(frag) // 2:02X}{num:02X}{len(frs):02X}{frag}"
+        rig.transport.inject(f"RP --- {CTL} {dst} --:------ 0404 {len(p) // 2:03d} {p}")
+
+    for t, z, num, dst in script.get("replay_old", []):
+        loop.call_later(t, replay_old, z, num, dst)
     tasks = [asyncio.ensure_future(one(c)) for c in script["calls"]]
     done, pending = await asyncio.wait(tasks, timeout=600.0)
     for t in pending:
@@ -280,6 +299,19 @@ def gen_script(rnd: random.Random) -> dict:
     for _ in range(rnd.randrange(0, 3)):
         z = rnd.choice(ZONES)
         overheard.append((rnd.choice((0.0, 0.05, 0.2, 1.0)), f"RP --- {CTL} 18:999999 --:------ 0404 012 {z}20000805" + rnd.choice(("0103", "0203", "0101")) + "6899AB00CD"))
+    if rnd.random() < 0.2:
+        # directed: the zone is fetched, its schedule changes on the controller, it is fetched again - and copies of fragments of
+        # the *old* schedule (delayed duplicates, replies to another gateway) arrive at moments spread over the re-fetch
+        z = rnd.choice(ZONES)
+        t1 = rnd.choice((4.0, 4.0, 6.5))
+        calls = [{"zone": z, "at": 0.0, "force_io": True, "timeout": 15},
+                 {"zone": z, "at": t1, "force_io": True, "timeout": 15}]     # (unforced, the cached copy may be returned with no I/O: documented)
+        nfr = {2: 3, 4: 5, 6: 8}.get(sizes[z], 5)
+        olds = []
+        for _ in range(rnd.randrange(1, 5)):
+            olds.append((round(t1 + rnd.choice((rnd.uniform(0.0, 0.12), rnd.uniform(0.0, 0.05 * (nfr + 2)))), 4), z,
+                         rnd.choice((1, 1, 1, rnd.randrange(1, nfr + 1))), "18:999999"))
+        return {"sizes": sizes, "calls": calls, "lose": {}, "bump_after": {}, "overheard": overheard, "bump_at": [(3.0, z)], "replay_old": olds}
     if rnd.random() < 0.3:
         # a write (after a fetch of the same zone, so that the zone holds a labelled schedule), faults in the middle of it
         z = rnd.choice(ZONES)
@@ -322,7 +354,24 @@ def score_set(chk: Check, c, o, rep) -> None:
         chk.violation("c18.overran", f"zone {c['zone']}: the write took {c['t1'] - c['t0']:.1f} s with timeout {c['timeout']}", rep)
 
 
+class _Tagged:
+    """violations of an episode in which the send layer returned, as the reply to a fragment request, a packet addressed to
+    another gateway (the recorded C07 finding): the data fetched is then not the controller's answer to this gateway"""
+
+    def __init__(self, chk: Check, suffix: str) -> None:
+        self._chk, self._suffix = chk, suffix
+
+    def __getattr__(self, name):
+        return getattr(self._chk, name)
+
+    def violation(self, key, what, rep):
+        self._chk.violation(key + self._suffix, what, rep)
+
+
 def score(chk: Check, script, o, rep) -> None:
+    if any(r[0] == "foreign_reply_taken" for r in o["rows"]):
+        chk.count("episodes.foreign_reply_taken_as_reply")
+        chk = _Tagged(chk, ".foreign-reply-taken")
     if o["hung"]:
         chk.violation("c18.hang", f"{o['hung']} transfer(s) had not ended after 600 s", rep)
     for c in o["calls"]:
